@@ -115,6 +115,12 @@ def build(job):
     if route == "from_dict+sequence-objects":
         # the dictionary's values are sequence OBJECTS of the general class (continuous data only: a sequence of numbers needs no alphabet)
         return cls.from_dict(dict((l, dendropy.CharacterDataSequence(list(r))) for l, r in zip(labels, rows)))
+    if route == "from_dict+pack":
+        # a taxon of the namespace without a row, completed by pack(): the added row is a row like any other
+        m = cls.from_dict(dict((l, _join(tp, r)) for l, r in zip(labels, rows)))
+        m.taxon_namespace.new_taxon("packed")
+        m.pack(value=(0.5 if tp == "continuous" else m.default_state_alphabet["-"]))
+        return m
     if route == "from_dict+case-sensitive-ns":
         # taxa added one by one to a case-sensitive namespace: labels that differ only in case are different taxa
         ns = dendropy.TaxonNamespace(is_case_sensitive=True)
@@ -193,6 +199,8 @@ def routes_for(tp):
     r = ["from_dict", "from_dict+extra-taxon", "concatenate", "export_indices", "export_subset"]
     if tp == "continuous":
         r.append("from_dict+sequence-objects")
+    if tp in ("continuous", "dna"):
+        r.append("from_dict+pack")
     if tp in SUPPORT["nexus"]:
         r += ["parsed:nexus", "parsed:nexus-interleaved", "parsed:nexus-datablock"]
     r += ["parsed:phylip-relaxed", "parsed:phylip-strict", "parsed:phylip-relaxed-interleaved", "parsed:phylip-strict-interleaved"]
